@@ -175,10 +175,13 @@ pub fn run(opts: &Opts) -> Report {
     let a = Reorder;
     crate::props::committed_replays(&a, opts, &mut rep);
     run_sub(&a, opts, opts.tier.pick(10_000, 150_000), &mut rep);
+    let sc = crate::props::scale::ReorderScale;
+    crate::props::committed_replays(&sc, opts, &mut rep);
+    run_sub(&sc, opts, opts.tier.pick(32, 600), &mut rep);
     crate::props::cli::c13(opts, &mut rep, opts.tier.pick(40, 600));
     rep
 }
 
 pub fn replay(path: &Path) -> Option<i32> {
-    crate::props::try_strict(&Reorder, "C13", path)
+    crate::props::try_strict(&Reorder, "C13", path).or_else(|| crate::props::try_strict(&crate::props::scale::ReorderScale, "C13", path))
 }
